@@ -248,3 +248,10 @@ def _r14_5(ctx):
 
 # sensitivity pack (thorough tier): each seeded edit must be reported by the named rule instance
 MUTANTS = [{'name': 'seeded-C14-a', 'patch': 'C14-a/patch.diff', 'expect': ('R14.5', 'update_index', 'consults Reorg::is_savepoint_required')}]
+
+
+# behaviour-preserving pack (thorough tier)
+NEUTRAL = [
+  {'name': 'reorg hash comparison commuted', 'file': 'src/index/reorg.rs', 'old': '          if index_block_hash == bitcoind_block_hash {', 'new': '          if bitcoind_block_hash == index_block_hash {'},
+  {'name': 'savepoint count test commuted', 'file': 'src/index/reorg.rs', 'old': '      if savepoints.len() >= index.settings.max_savepoints() {', 'new': '      if index.settings.max_savepoints() <= savepoints.len() {'},
+]
